@@ -29,6 +29,11 @@ constexpr bool operator<(int a, HKey b) { return a < b.v; }
 constexpr bool operator>(HKey a, int b) { return a.v > b; }
 constexpr bool operator>(int a, HKey b) { return a > b.v; }
 
+// a strict weak order whose equivalence is coarser than ==: integers ordered by k / 2
+struct half_less {
+    constexpr bool operator()(int a, int b) const { return a / 2 < b / 2; }
+};
+
 // minimal inplace-vector-like container (not tetl code): fixed capacity, contiguous, aborts when full
 template <typename T, std::size_t N>
 struct mini_vec {
@@ -118,6 +123,10 @@ struct SessionT final : Session {
 
     std::unique_ptr<S> cur, oth;
     O scur, soth;
+    // sorted_unique constructor handed a sequence that violates its precondition: [flat.set.cons] only says the
+    // container is adopted (initializes c with std::move(cont)); recorded as "the sequence as it is"
+    bool su_violated = false;
+    std::vector<long long> su_raw;
 
     static std::unique_ptr<S> make(std::string const& ctor, std::vector<long long> const& init)
     {
@@ -153,9 +162,19 @@ struct SessionT final : Session {
         oth               = make("range", other);
         scur              = make_std(init);
         soth              = make_std(other);
+        if ((ctor == "su" || ctor == "sur") && !std::equal(scur.begin(), scur.end(), init.begin(), init.end())) {
+            su_violated = true;
+            su_raw      = init;
+        }
     }
 
-    std::string initial() const override { return "ok" + state_of(*cur) + "\t" + "ok" + state_of(scur); }
+    std::string initial() const override
+    {
+        if (su_violated) {
+            return "ok" + state_of(*cur) + "\t" + "ok n=" + std::to_string(su_raw.size()) + " d=" + proto::fmt_list(su_raw);
+        }
+        return "ok" + state_of(*cur) + "\t" + "ok" + state_of(scur);
+    }
 
     template <typename It>
     std::size_t off(It it) const
@@ -186,6 +205,7 @@ struct SessionT final : Session {
         S& s           = *cur;
         S const& cs    = *cur;
         if (het && !transparent) return "bad-op\tbad-op";
+        if (su_violated) return "bad-op\tbad-op";   // nothing is specified after a violated precondition
 
         if (op == "insert") {
             int k           = static_cast<int>(l.i("k"));
@@ -370,6 +390,9 @@ static std::unique_ptr<Session> make_cmp(Line const& l)
     if (cmp == "greater") return std::make_unique<SessionT<Kind, CAP, etl::greater<int>, std::greater<int>>>(l);
     if (cmp == "tless") return std::make_unique<SessionT<Kind, CAP, etl::less<>, std::less<>>>(l);
     if (cmp == "tgreater") return std::make_unique<SessionT<Kind, CAP, etl::greater<>, std::greater<>>>(l);
+    if constexpr (Kind != K::fi) {
+        if (cmp == "hless") return std::make_unique<SessionT<Kind, CAP, half_less, half_less>>(l);
+    }
     return nullptr;
 }
 
@@ -421,6 +444,7 @@ int main(int argc, char** argv)
                 if (cmp == "greater") return mset<etl::static_vector<int, 8>, etl::greater<int>, std::greater<int>>(c);
                 if (cmp == "tless") return mset<etl::static_vector<int, 8>, etl::less<>, std::less<>>(c);
                 if (cmp == "tgreater") return mset<etl::static_vector<int, 8>, etl::greater<>, std::greater<>>(c);
+                if (cmp == "hless") return mset<etl::static_vector<int, 8>, half_less, half_less>(c);
             }
             return "bad-op\tbad-op";
         }
